@@ -23,7 +23,8 @@ public:
     }
 
     void ActivateChannel(u16 value) {
-        active_channel = value;
+        // CHANNEL is a 3-bit field (there are 8 channels); higher bits would index past the channel array
+        active_channel = value & 7;
     }
     u16 GetActiveChannel() const {
         return active_channel;
